@@ -32,8 +32,7 @@ META = {
         'accepted either way: an optional single leading zero before the point (also when that leaves a bare point for a zero); on which side of $ a leading sign sits; '
         'a minus on a negative number whose shown digits are all zero; ! with the empty string (blank or nothing); '
         'zero in an exponential field (GW shows no mantissa digits); exponential fields without any mantissa digit '
-        'position; $$ with ^^^^ (ruled out by the manual); a trailing comma in a field without point; more than 24 digit '
-        'positions (observed and counted only); format strings with several fields. Left-justification in \\ \\ fields '
+        'position; with $$ / **$ and ^^^^ (ruled out by the manual) only width, the % rule, $, decimals and the value are judged, not which positions hold digits; a trailing comma in a field without point; format strings with several fields. Left-justification in \\ \\ fields '
         'and the digit positions of the exponential form are taken from the manual. String bytes 0x20-0xFF (control '
         'characters would be interpreted by the output device).'),
     'rule': ('case = (path, field spec, exact value bytes) or (path, string field, string); distinct by that triple; '
@@ -205,19 +204,22 @@ def _numeric_file(res, cases, batch=400):
 
 
 def _over_24(res):
-    """More than 24 digit positions: outside the statement; the behaviour is only recorded."""
+    """24 digit positions is the limit: 25 must raise Illegal function call (the manual's rule), 24 must not."""
     from .. import harness
     with harness.Box() as box:
-        for spec in (b'#' * 25, b'#' * 13 + b'.' + b'#' * 12, b'**' + b'#' * 24):
+        for spec in (b'#' * 25, b'#' * 13 + b'.' + b'#' * 12, b'$$' + b'#' * 24, b'**' + b'#' * 23, b'**$' + b'#' * 23,
+                     b'+' + b'#' * 20 + b'.#####-'[:-1], b'#' * 25 + b'^^^^'):
             try:
                 out = box.ex(b'PRINT USING "' + spec + b'";1')
             except harness.Internal as e:
                 res.violation(e.key, str(e), ['over24', spec])
                 continue
+            res.case(('over24', spec))
             if harness.err_of(out)[0] == 5:
                 res.count('over_24_positions_illegal_function_call_seen')
             else:
-                res.count('over_24_positions_accepted_seen')
+                res.violation('using:25-digit-positions-accepted', 'PRINT USING %r;1 -> %r (more than 24 digit positions)'
+                              % (spec, out), ['over24', spec])
 
 
 def _strings(res, rng, n, batch=300):
